@@ -89,6 +89,7 @@ type party struct {
 	runErr2    error
 	ran2       bool
 	triples    gmw.Triples
+	more       []gmw.Triples // the later takes of the case (getsMore)
 	gotTriples bool
 	done       bool
 }
@@ -99,9 +100,11 @@ type sample struct {
 	Source  string `json:",omitempty"`
 	Inputs  []string
 	TripleN int
-	Knobs   string `json:",omitempty"`
-	Delays  []string
-	Net     string
+	// MoreTakes: further Pool.Get calls after the first, every party at its own pace
+	MoreTakes []int  `json:",omitempty"`
+	Knobs     string `json:",omitempty"`
+	Delays    []string
+	Net       string
 }
 
 // deepChain is a two-party circuit whose AND depth is d: prev = AND(XOR(prev, in_a), one), d times,
@@ -184,6 +187,23 @@ func (w *world) Run(t *rt.Tape, trace bool) *core.Result {
 		tripleN = []int{12289, 13000, 20481, 30000}[t.Choose(rt.SGen, 4)]
 	}
 
+	// Half of the cases that take triples directly take some more afterwards, each party at its own
+	// pace (busy for 0..1 s before a take): a party that finds the pool short where another finds it
+	// full must still be handed the same triples.
+	var getsMore []int
+	getDelay := map[[2]int]time.Duration{}
+	if tripleN > 0 && tripleN < 5000 && t.Choose(rt.SGen, 2) == 0 {
+		for k := 0; k <= t.Choose(rt.SGen, 3); k++ {
+			getsMore = append(getsMore, []int{1, 64, 65, 100, 129, 300, 1000}[t.Choose(rt.SGen, 7)])
+		}
+		for id := 0; id < n; id++ {
+			for k := 0; k <= len(getsMore); k++ {
+				getDelay[[2]int{id, k}] = []time.Duration{0, 0, time.Millisecond, 20 * time.Millisecond, time.Second}[t.Choose(rt.SGen, 5)]
+			}
+		}
+		res.Reach["triples.several-takes-at-different-paces"]++
+	}
+
 	// Tuning knobs of the triple pool (half of the runs): with the low-water
 	// mark at a few words and batches of 1..8 words the refill protocol between
 	// the leader's producer and the consumers (sleep above the mark, wake at or
@@ -262,7 +282,7 @@ func (w *world) Run(t *rt.Tape, trace bool) *core.Result {
 		return time.Duration(rt.Choose(rt.SNet, 40)) * time.Millisecond
 	}
 	ps := make([]*party, n)
-	smp := sample{Parties: n, Circuit: gen.Describe(circ), Source: src, TripleN: tripleN, Knobs: knobs, Net: core.DescribeDir(dir) + fmt.Sprintf(" dial-latency-mode=%d", dialLat)}
+	smp := sample{Parties: n, Circuit: gen.Describe(circ), Source: src, TripleN: tripleN, MoreTakes: getsMore, Knobs: knobs, Net: core.DescribeDir(dir) + fmt.Sprintf(" dial-latency-mode=%d", dialLat)}
 	joinDelay := make([]time.Duration, n)
 	connDelay := make([]time.Duration, n)
 	runDelay := make([]time.Duration, n)
@@ -322,7 +342,13 @@ func (w *world) Run(t *rt.Tape, trace bool) *core.Result {
 					return
 				}
 				if tripleN > 0 {
+					rt.Sleep(getDelay[[2]int{p.id, 0}])
 					p.nw.Pool.Get(tripleN, &p.triples)
+					p.more = make([]gmw.Triples, len(getsMore))
+					for k, cnt := range getsMore {
+						rt.Sleep(getDelay[[2]int{p.id, k + 1}])
+						p.nw.Pool.Get(cnt, &p.more[k])
+					}
 					p.gotTriples = true
 				}
 				rt.Sleep(runDelay[p.id])
@@ -403,6 +429,26 @@ func (w *world) Run(t *rt.Tape, trace bool) *core.Result {
 			}
 		}
 		res.Reach["triples.checked-words"] += words
+		for k, cnt := range getsMore {
+			words := ps[0].more[k].Words
+			for _, p := range ps {
+				if p.more[k].Words != words || words*64 < cnt {
+					return fail("triple-count", fmt.Sprintf("take %d of the case, Pool.Get(%d) after Pool.Get(%d)...: party 0 got %d words, party %d got %d words", k+2, cnt, tripleN, words, p.id, p.more[k].Words))
+				}
+			}
+			for wd := 0; wd < words; wd++ {
+				var a, b, c uint64
+				for _, p := range ps {
+					a ^= p.more[k].A[wd]
+					b ^= p.more[k].B[wd]
+					c ^= p.more[k].C[wd]
+				}
+				if a&b != c {
+					return fail("invalid-triple", fmt.Sprintf("take %d of the case (Pool.Get(%d), earlier takes %d %v) with %d parties, word %d: (xor a)&(xor b) = %#x, xor c = %#x", k+2, cnt, tripleN, getsMore[:k], n, wd, a&b, c))
+				}
+			}
+			res.Reach["triples.checked-words"] += words
+		}
 	}
 	for _, p := range ps {
 		if !gen.EqualOutputs(p.out, want) {
